@@ -159,7 +159,11 @@ func cmdCheck(args []string) int {
 				// reachability: only `unsat` matters (vacuity); do not wait for a model
 				to = 3 * time.Second
 			}
-			r := solve2(text, j.fv.smtGround(j.q), to, thorough && !j.ob.Cover)
+			ground := j.fv.smtGround(j.q)
+			if *dump && ground != "" {
+				dumpQuery(filepath.Join(outDir, "smt"), j.ob.Name+".ground", j.n, ground)
+			}
+			r := solve2(text, ground, to, thorough && !j.ob.Cover)
 			j.q.Result, j.q.Solver, j.q.Ms, j.q.Model, j.q.SMT = r.result, r.solver, r.ms, r.model, text
 			if r.result != "unsat" && r.result != "sat" && r.groundSat {
 				j.q.Candidate = true
@@ -445,6 +449,10 @@ func cmdCheck(args []string) int {
 // contractLevel: obligations that come from a clause written in a contract on
 // the function itself (their disappearance means the contract can no longer be checked).
 func contractLevel(name string) bool {
+	// per-site covers (cover:loop:.., cover:return@..) disappear with the statement they sit on
+	if strings.Contains(name, "/cover:loop:") || strings.Contains(name, "/cover:return@") {
+		return false
+	}
 	return strings.Contains(name, "/ensures[") || strings.Contains(name, "/cover:")
 }
 
@@ -535,7 +543,7 @@ func trustedBase(e *Engine, fvs []*FuncVer) []string {
 		n++
 	}
 	out = append(out, fmt.Sprintf("%d assumed contracts on dependency functions and interface methods (extern/iface blocks in */contracts*_verif.go)", n))
-	out = append(out, "std-lib models in gocv/models.go (append, copy, encoding/binary, slices.Clone/Reverse, sort.Slice as havoc, errors/fmt as fresh values)")
+	out = append(out, "std-lib models in gocv/models.go (append, copy, encoding/binary, slices.Clone/Reverse, sort.Slice as an unspecified permutation of the slice with a side-effect-free less, errors/fmt as fresh values)")
 	return out
 }
 
@@ -552,6 +560,9 @@ func assumptionsList(e *Engine, fvs []*FuncVer) []string {
 	for _, fv := range fvs {
 		for _, cl := range fv.block.ClausesOf("requires") {
 			out = append(out, fmt.Sprintf("precondition assumed for %s: %s", fv.shortName(), cl.Text))
+		}
+		for _, cl := range fv.block.ClausesOf("assumeafter") {
+			out = append(out, fmt.Sprintf("ASSUMED, not proved, in %s after %s [%s]: %s", fv.shortName(), cl.Target, cl.Name, cl.Text))
 		}
 		for n := range fv.trustedCalls {
 			out = append(out, fmt.Sprintf("NOT PROVED: %s establishes the preconditions of %s at its call sites (trustcalls)", fv.shortName(), n))
